@@ -1396,6 +1396,20 @@ _vbi_cache_foreach_page		(vbi_cache *		ca,
 		while (0 == ps->n_subpages
 		       || subno < ps->subno_min
 		       || subno > ps->subno_max) {
+			if (ps->n_subpages > 0) {
+				/* We are outside the range of the cached
+				   subpages but they are still ahead of us,
+				   e.g. when starting at subno 0 of a page
+				   with subpages 2 ... 3. */
+				if (dir > 0 && subno < ps->subno_min) {
+					subno = ps->subno_min;
+					break;
+				} else if (dir < 0 && subno > ps->subno_max) {
+					subno = ps->subno_max;
+					break;
+				}
+			}
+
 			if (dir < 0) {
 				--pgno;
 				--ps;
